@@ -10,7 +10,7 @@ import (
 // Input families
 
 var inputFamilies = []string{"iid1", "iid2", "iid3", "iid4", "iid16", "iid256", "zeroheavy", "runs", "periodic",
-	"copyback", "fib", "thue", "debruijn", "zeroprefix_runs"}
+	"copyback", "fib", "thue", "debruijn", "zeroprefix_runs", "tandem", "nested"}
 
 func genInput(r *RNG, n int, fam string) []byte {
 	b := make([]byte, n)
@@ -106,6 +106,84 @@ func genInput(r *RNG, n int, fam string) []byte {
 				l := 1 + r.Intn(6)
 				for ; l > 0 && i < n; l-- {
 					b[i] = base + byte(r.Intn(6))
+					i++
+				}
+			}
+		}
+	case "tandem":
+		// a unit with inner repeats, repeated several times with occasional
+		// insertions: long tandem repeats (the rank-sorting phase of the suffix
+		// sorter copies ranks inside such groups instead of sorting them)
+		k := 2 + r.Intn(3)
+		ul := 8 + r.Intn(110)
+		unit := make([]byte, 0, ul)
+		for len(unit) < ul {
+			if len(unit) > 3 && r.Chance(0.5) {
+				o := 1 + r.Intn(len(unit))
+				for l := 1 + r.Intn(20); l > 0 && len(unit) < ul; l-- {
+					unit = append(unit, unit[len(unit)-o])
+				}
+			} else {
+				unit = append(unit, base+byte(r.Intn(k)))
+			}
+		}
+		i := 0
+		for i < n {
+			for _, c := range unit {
+				if i >= n {
+					break
+				}
+				b[i] = c
+				i++
+			}
+			if i < n && r.Chance(0.25) {
+				b[i] = base + byte(r.Intn(k))
+				i++
+			}
+		}
+	case "nested":
+		// repeats of repeats: a short word grows by appending powers w^r of
+		// its own substrings, with a stray letter now and then; tandem repeats
+		// on every scale (found to be what the suffix sorter's tandem-repeat
+		// and budget paths need)
+		k := 2 + r.Intn(3)
+		w := make([]byte, 0, n+64)
+		for i := 2 + r.Intn(5); i > 0; i-- {
+			w = append(w, base+byte(r.Intn(k)))
+		}
+		for len(w) < n {
+			l := 1 + r.Intn(len(w))
+			if r.Chance(0.5) {
+				l = 1 + r.Intn(min(len(w), 12))
+			}
+			a := len(w) - l
+			if r.Chance(0.3) {
+				a = r.Intn(len(w) - l + 1)
+			}
+			sub := append([]byte(nil), w[a:a+l]...)
+			for rep := 1 + r.Intn(8); rep > 0 && len(w) < n; rep-- {
+				w = append(w, sub...)
+			}
+			if r.Chance(0.4) {
+				w = append(w, base+byte(r.Intn(k)))
+			}
+		}
+		copy(b, w)
+	case "copyback256":
+		// unique strings (literals over the full alphabet) and exact repeats
+		i := 0
+		for i < n {
+			if i > 8 && r.Chance(0.5) {
+				l := 3 + r.Intn(24)
+				o := 1 + r.Intn(i)
+				for ; l > 0 && i < n; l-- {
+					b[i] = b[i-o]
+					i++
+				}
+			} else {
+				l := 1 + r.Intn(12)
+				for ; l > 0 && i < n; l-- {
+					b[i] = byte(r.Intn(256))
 					i++
 				}
 			}
@@ -430,14 +508,14 @@ func genRPlan(r *RNG, n int, o planOpts) *RPlan {
 
 type pgen struct {
 	wParse, wNil, wWrite, wReadFrom, wShrink, wReset, wResetData, wReadAt int
-	nOps                                                                 int
-	flagsNTL                                                             float64 // probability of NoTrailingLiterals
-	reuse                                                                float64
-	plan                                                                 planOpts
-	aliasReset                                                           bool
-	oversizeReset                                                        bool
-	overfill                                                             float64 // probability that a feed exceeds the free space
-	trickle                                                              float64 // probability that a feed is only 1..3 bytes
+	nOps                                                                  int
+	flagsNTL                                                              float64 // probability of NoTrailingLiterals
+	reuse                                                                 float64
+	plan                                                                  planOpts
+	aliasReset                                                            bool
+	oversizeReset                                                         bool
+	overfill                                                              float64 // probability that a feed exceeds the free space
+	trickle                                                               float64 // probability that a feed is only 1..3 bytes
 }
 
 func defaultPGen() pgen {
